@@ -63,7 +63,18 @@ func smtText(vc *VC, o *Obligation, seed int) string {
 	return b.String()
 }
 
+var solverSem = make(chan struct{}, 15)
+
 func runSolver(ctx context.Context, sp solverSpec, file string, timeoutMs int, wantModel bool) (string, string) {
+	select {
+	case solverSem <- struct{}{}:
+	case <-ctx.Done():
+		return "cancelled", ""
+	}
+	defer func() { <-solverSem }()
+	if ctx.Err() != nil {
+		return "cancelled", ""
+	}
 	args := sp.args(file, timeoutMs)
 	cctx, cancel := context.WithTimeout(ctx, time.Duration(timeoutMs+3000)*time.Millisecond)
 	defer cancel()
